@@ -61,6 +61,7 @@ class Engine:
         if key in self.base_keys:
             return
         self.solver.add(formula)
+        self.last_model = None          # a cached model knows nothing about constraints added after it was computed
         if self.depth == 0:
             self.base_keys.add(key)
 
@@ -151,6 +152,21 @@ class Engine:
                     self.last_model = None
             except Exception:
                 self.last_model = None
+        return c
+
+    def fork_free(self, cond):
+        """a decision on a variable that nothing else constrains (e.g. the fault point): both sides are feasible by
+        construction, so no solver call is needed"""
+        if self.pos < len(self.prefix):
+            c = self.prefix[self.pos]
+        else:
+            self.alts.append(self.trace + [True])
+            c = False
+        self.trace.append(c)
+        self.pos += 1
+        self.nforks += 1
+        self.solver.add(cond if c else z3.Not(cond))
+        self.last_model = None
         return c
 
     def uf(self, name, args, eqfn, sort=None):
